@@ -246,6 +246,12 @@ type MineResult struct {
 // time. The candidate txs are cloned first because the miner mutates them. The block is
 // not inserted anywhere.
 func (n *Node) Mine(parent *types.Block, t uint32, cands types.Transactions, extra string) (*MineResult, error) {
+	return n.MineH(parent, t, cands, extra, nil)
+}
+
+// MineH is Mine with a hook that may override the miner-chosen header fields (GasLimit,
+// Extra, Time, DeputyRoot) after PrepareHeader; the in-turn deputy is determined for t.
+func (n *Node) MineH(parent *types.Block, t uint32, cands types.Transactions, extra string, override func(h *types.Header)) (*MineResult, error) {
 	miner, err := n.InTurn(parent.Header, t)
 	if err != nil {
 		return nil, err
@@ -259,6 +265,9 @@ func (n *Node) Mine(parent *types.Block, t uint32, cands types.Transactions, ext
 		return nil, err
 	}
 	header.Time = t
+	if override != nil {
+		override(header)
+	}
 	txs := CloneTxs(cands)
 	block, invalid, err := asm.MineBlock(header, txs, 600000)
 	if err != nil {
@@ -287,6 +296,16 @@ func (n *Node) Insert(b *types.Block, withLogs bool) error {
 func (n *Node) Confirms(b *types.Block, sigs []types.SignData) {
 	SetSelf(n.Self)
 	n.BC.InsertConfirms(b.Height(), b.Hash(), sigs)
+}
+
+// Resign replaces the header signature by key k's signature over the block hash.
+func Resign(b *types.Block, k Key) {
+	h := b.Hash()
+	sig, err := crypto.Sign(h[:], k.Priv)
+	if err != nil {
+		panic(err)
+	}
+	b.Header.SignData = sig
 }
 
 // SignBlock signs a block hash with a deputy key (what a remote deputy's confirm would be).
